@@ -126,10 +126,17 @@ class ConnProxy:
         if self._closed:
             return
         self._closed = True
+        held = self._in_txn()
         r = self._r.close()
-        if SIM is not None and SIM.tasks:
-            SIM.wake_lock_waiters()
+        if held and SIM is not None and SIM.tasks:
+            SIM.wake_lock_waiters()      # only a connection inside a transaction can have released a lock
         return r
+
+    def _in_txn(self):
+        try:
+            return bool(self._r.in_transaction)
+        except Exception:
+            return True
 
     def execute(self, sql, *a):
         return self.cursor().execute(sql, *a)
@@ -138,8 +145,9 @@ class ConnProxy:
         try:
             if not self._closed:
                 self._closed = True
+                held = self._in_txn()
                 self._r.close()
-                if SIM is not None and SIM.tasks:
+                if held and SIM is not None and SIM.tasks:
                     SIM.wake_lock_waiters()
         except Exception:
             pass
@@ -412,7 +420,16 @@ def install():
     ops.delayed = sim_delayed
     ds.sqlite3 = sqlproxy
     clock = types.SimpleNamespace(time=lambda: SIM.now if SIM is not None else kernel.EPOCH)
-    job.time = clock
+
+    def job_clock():
+        # reading the wall clock is a pre-emption point of a worker (start of an attempt, just before the store write)
+        sim = SIM
+        if sim is None:
+            return kernel.EPOCH
+        if sim.tasks:
+            sim.yield_point('clock', 0.0, crash=False)
+        return sim.now
+    job.time = types.SimpleNamespace(time=job_clock)
     for m in (sw, ge, ns, swp):
         if hasattr(m, 'time'):
             m.time = clock
